@@ -266,6 +266,7 @@ func main() {
 	rep := lib.NewReport("C01")
 	rep.Rule = "µGo cases (chains of data operations from source_i() to sink_i(x), harness/mugo) x configurations {field-sensitive, on-demand, rewrites}; distinct = distinct step-kind sequence; non-trivial = positive case observed by the native ground truth"
 	runCorpus(rep)
+	runRewrites(rep)
 
 	r := lib.Rand("c01")
 	nprog, ncases := 2, 40
